@@ -1162,7 +1162,7 @@ def gen_file(ws, fsx: FileSpec, log):
             else:
                 name, b = stack.pop()
                 regions.append({"fn": name, "begin": b, "end": i})
-        m = re.search(r"//\s*@L\s+([\w.\-]+)", line)
+        m = re.search(r"//\s*@L\s+([\w.\-+]+)", line)
         if m:
             labels[str(i)] = m.group(1)
     return {"file": fsx.path, "regions": regions, "labels": labels}
